@@ -206,6 +206,9 @@ def generate(srcdir):
     C['TOPDOMAIN_MIN'] = anchored_int(common_c, r'check_topdomain.*?strlen\(str\)\s*<\s*(\d+)', 'check_topdomain min', 'common.c')
     C['TOPDOMAIN_MAX'] = anchored_int(common_c, r'check_topdomain.*?strlen\(str\)\s*>\s*(\d+)', 'check_topdomain max', 'common.c')
     C['TOPDOMAIN_LABEL_MAX'] = anchored_int(common_c, r'check_topdomain.*?chunklen\s*>\s*(\d+)', 'check_topdomain label max', 'common.c')
+    # C17: the second (after-loop) label-length test of check_topdomain (greedy: last occurrence), query_datalen's minimum
+    C['TOPDOMAIN_LABEL_MAX_END'] = anchored_int(common_c, r'check_topdomain.*chunklen\s*>\s*(\d+)', 'check_topdomain final label max', 'common.c')
+    C['QUERY_DATALEN_MIN'] = anchored_int(common_c, r'query_datalen.*?tpos\s*<\s*(\d+)', 'query_datalen topdomain min', 'common.c')
 
     read_c = strip_comments(read(srcdir, 'read.c'))
     C['PUTNAME_LABEL_MAX'] = anchored_int(read_c, r'strlen\(word\)\s*>\s*(\d+)', 'putname label limit', 'read.c')
